@@ -122,10 +122,14 @@ strtoi32(const char *str, const char **ep)
 	while (res < INT32_MAX / 10 && (unsigned char)(*sp ^ '0') < 10U) {
 		res *= 10, res += (unsigned char)(*sp++ ^ '0');
 	}
-	if (negp) {
+	if (UNLIKELY(res == INT32_MIN)) {
+		/* not a single digit, a lone sign is no number either */
+		*ep = (char*)str;
+		return res;
+	} else if (negp) {
 		res = -res;
 	}
-	*ep = res > INT32_MIN ? (char*)sp : (char*)str;
+	*ep = (char*)sp;
 	return res;
 }
 
@@ -144,10 +148,14 @@ strtoi64(const char *str, const char **ep)
 	while (res < INT64_MAX / 10 && (unsigned char)(*sp ^ '0') < 10U) {
 		res *= 10, res += (unsigned char)(*sp++ ^ '0');
 	}
-	if (negp) {
+	if (UNLIKELY(res == INT64_MIN)) {
+		/* not a single digit, a lone sign is no number either */
+		*ep = (char*)str;
+		return res;
+	} else if (negp) {
 		res = -res;
 	}
-	*ep = res > INT64_MIN ? (char*)sp : (char*)str;
+	*ep = (char*)sp;
 	return res;
 }
 
